@@ -143,7 +143,7 @@ func modify(rec []byte, class string, salt, ord int) []byte {
 				}
 			}
 			if same && r[len(r)-1] >= 20 && r[len(r)-1] <= 23 {
-				r[len(r)-1] ^= 0x40
+				r[0] ^= 1 // the slid-in byte would restore the fragment: change the header as well
 			}
 			r = append(r[:p], r[p+1:]...)
 		} else {
